@@ -16,9 +16,10 @@ import (
 
 // Loaded is a built SSA program with harness overlays.
 type Loaded struct {
-	Prog *ssa.Program
-	Pkgs map[string]*ssa.Package // by import path
-	Secs float64
+	Packages []*packages.Package
+	Prog     *ssa.Program
+	Pkgs     map[string]*ssa.Package // by import path
+	Secs     float64
 }
 
 // LoadProgram loads the given package patterns from repoDir with overlay files.
@@ -45,6 +46,7 @@ func LoadProgram(repoDir string, patterns []string, overlay map[string][]byte, t
 	prog, _ := ssautil.AllPackages(pkgs, ssa.InstantiateGenerics)
 	prog.Build()
 	l := &Loaded{Prog: prog, Pkgs: map[string]*ssa.Package{}}
+	packages.Visit(pkgs, nil, func(p *packages.Package) { l.Packages = append(l.Packages, p) })
 	for _, p := range prog.AllPackages() {
 		l.Pkgs[p.Pkg.Path()] = p
 	}
@@ -71,6 +73,7 @@ type RunConfig struct {
 	ModulePath string
 	InitPkgs   []string // module packages whose init must run (dependency order)
 	Fixed      map[string]string
+	FixedKeys  []string // concrete replay: slot identity chosen at each scheduler step
 	Trace      bool
 	LogDir     string
 	KnownIDs   map[string]bool // known-finding ids whose predicates are active
@@ -93,10 +96,11 @@ type QueryRecord struct {
 }
 
 type Violation struct {
-	Run    string
-	Ob     *Obligation
-	Values map[string]string
-	Sched  []int64
+	ConcreteConfirmed bool
+	Run               string
+	Ob                *Obligation
+	Values            map[string]string
+	Sched             []int64
 }
 
 type RunResult struct {
@@ -167,6 +171,7 @@ func Run(l *Loaded, cfg RunConfig) (res *RunResult) {
 	}
 	if cfg.Sched {
 		ex.EnableSched(cfg.Races)
+		ex.sched.FixedKeys = cfg.FixedKeys
 	}
 	pkg := l.Pkgs[cfg.PkgPath]
 	if pkg == nil {
@@ -332,6 +337,8 @@ func (ex *Exec) discharge(res *RunResult, cfg RunConfig) {
 	}
 
 	var mu sync.Mutex
+	reach := map[string]bool{}
+	reachTried := map[string]string{}
 	var queue []*dJob
 	outstanding := 0
 	cond := sync.NewCond(&mu)
@@ -384,12 +391,24 @@ func (ex *Exec) discharge(res *RunResult, cfg RunConfig) {
 			submit(p, "main", []*Term{o.G, p.neg, p.notKF}, func(r Result, m map[string]string) {
 				o.Result, o.Checked, o.Model = r, true, m
 				if o.Kind == "assert" && r == Unsat && len(p.kfTerms) == 0 {
-					// vacuity twin: the assertion must be reachable
-					submit(p, "reach", []*Term{o.G}, func(rv Result, _ map[string]string) {
-						if rv == Unsat {
-							note(fmt.Sprintf("vacuous assertion %q at %s (path condition unsatisfiable)", o.Label, o.Pos))
+					// vacuity twin: some instance of the assertion (label) must be reachable
+					mu.Lock()
+					known := reach[o.Label]
+					if !known {
+						if _, seen := reachTried[o.Label]; !seen {
+							reachTried[o.Label] = o.Pos
 						}
-					})
+					}
+					mu.Unlock()
+					if !known {
+						submit(p, "reach", []*Term{o.G}, func(rv Result, _ map[string]string) {
+							if rv != Unsat {
+								mu.Lock()
+								reach[o.Label] = true
+								mu.Unlock()
+							}
+						})
+					}
 				}
 			})
 			for i, kt := range p.kfTerms {
@@ -541,6 +560,11 @@ func (ex *Exec) discharge(res *RunResult, cfg RunConfig) {
 		}(w)
 	}
 	wg.Wait()
+	for label, pos := range reachTried {
+		if !reach[label] {
+			res.Inconcl = append(res.Inconcl, fmt.Sprintf("vacuous assertion %q at %s (no instance is reachable)", label, pos))
+		}
+	}
 	// classify
 	for _, o := range obs {
 		switch o.Kind {
